@@ -136,6 +136,24 @@ func writeEvidence(path string, res *CheckResult, seed int, known []string, extr
 	ev := &Evidence{PropertyID: res.Prop, Tier: res.Tier, Seed: seed, Level: "proof", Coverage: cov, WallS: res.WallS, Violations: violations}
 	ev.Assumptions = append(ev.Assumptions, baseAssumptions...)
 	ev.Assumptions = append(ev.Assumptions, extraAssumptions...)
+	if len(res.GuardRules) > 0 {
+		cov["guarded_declarations"] = res.GuardRules
+		cov["guarded_accessors_not_translated"] = res.GuardUnchecked
+		ev.Assumptions = append(ev.Assumptions,
+			"A-MUTEX: sync.Mutex / sync.RWMutex give mutual exclusion and happens-before as documented; a guarded field is declared by hand (fields and structures not listed in a 'guarded' declaration are not covered)",
+			"A-OWN: an object allocated by the current call is private to it until the call returns (the ownership escape of the guarded obligations); publication before the last access inside the allocating function is not tracked",
+			"A-ALIAS: the pointee rule ('f*') follows x.f.G, *x.f and x.f.M() only; a copy of the pointer kept in a local variable or passed on is not followed",
+			"A-LOCKNEUTRAL: a callee without a contract, a closure called synchronously and a deferred closure return with the locks they were entered with; a function without held(...) preconditions is entered holding none of the mutexes it uses (A-LOCKENTRY)",
+			"what is decided is lock-set data-race freedom of the declared state for all schedules; deadlock across several mutexes, linearizability of replies and cache/backend agreement after concurrent runs are not decided")
+		for _, r := range res.GuardRules {
+			if ex, ok := r["exempt_functions"]; ok {
+				ev.Assumptions = append(ev.Assumptions, fmt.Sprintf("guarded rule %v: accesses in %v are trusted (synchronised by other means than the declared mutex)", r["label"], ex))
+			}
+		}
+		for _, u := range res.GuardUnchecked {
+			ev.Assumptions = append(ev.Assumptions, "guarded pass: accessor could not be translated and is NOT checked: "+u)
+		}
+	}
 	for _, a := range res.Assumed {
 		ev.Assumptions = append(ev.Assumptions, "assumed contract: "+a)
 	}
